@@ -105,6 +105,17 @@ def seeded(dirs):
         kinds = [l.strip() for l in out.splitlines() if "new violation kind" in l]
         print(name, meta["property"], "CAUGHT" if caught else f"MISSED(rc={rc})",
               f"{wall:.0f}s", "; ".join(kinds)[:200], flush=True)
+        if os.environ.get("VF_UPDATE_META") == "1":
+            first = meta.get("check") or {}
+            if first.get("verdict") and "first_verdict" not in meta:
+                meta["first_verdict"] = first["verdict"]     # before any strengthening
+            head = subprocess.run(["git", "-C", core.VERIF, "rev-parse", "--short", "HEAD"],
+                                  capture_output=True, text=True).stdout.strip()
+            meta["check"] = {"quick_rc": rc,
+                             "verdict": {0: "MISSED", 1: "CAUGHT"}.get(rc, "INCONCLUSIVE"),
+                             "kinds": kinds[:8], "wall_s": round(wall),
+                             "verif_commit": head}
+            json.dump(meta, open(os.path.join(sd, "meta.json"), "w"), indent=1)
     return ok
 
 
